@@ -13,7 +13,7 @@ def _add(spec):
 _add(PropertySpec(
     "C18", files=["subsequences"],
     targets=[f"{SUB}:subseq_complete", f"{SUB}:mask_from_subseq", f"{SUB}:subseq_from_mask", f"{SUB}:subseq_segment_dist",
-             "lemma_pow2_mono", "lemma_submask_le", "lemma_bl_mono", "lemma_submask_bl", "lemma_runs_open", "lemma_lastmiss_cur"],
+             "lemma_pow2_mono", "lemma_submask_le", "lemma_bl_mono", "lemma_submask_bl", "lemma_runs_open", "lemma_lastmiss_cur", "lemma_runs_empty_child", "lemma_lastmiss_empty_child", "lemma_runs_nonneg"],
     level="proof",
     technique="contract-based deductive verification: sidecar contracts + loop invariants on the real AST, VCs discharged by z3/cvc5",
     assumptions=["bit operations on non-negative integers: x & 1 = x mod 2, x >> 1 = x div 2, 1 << k = 2**k, a | 2**k = a + 2**k when bit k of a is clear (each use generates the side obligation)"],
@@ -57,4 +57,20 @@ _add(PropertySpec(
     standins=["toposort:all-orderings-vs-permutation-filter"],
     technique="bounded stand-in (runtime check against permutation filtering); no obligations are discharged for this property",
     not_decided=["toposort / toposort_all / _toposort_all_bt: the inductive invariant needs in-degree = number of unprocessed predecessors (a cardinality), which the SMT back ends do not support; not proved"],
+))
+
+MRC = "superrec2.model.reconciliation"
+_add(PropertySpec(
+    "C06", files=["model_reconciliation"],
+    targets=[f"{MRC}:ReconciliationOutput.node_event", f"{MRC}:ReconciliationOutput._cost_rec", f"{MRC}:ReconciliationOutput.cost",
+             f"{MRC}:SuperReconciliationOutput._ordered_labeling_cost", f"{MRC}:SuperReconciliationOutput._unordered_labeling_cost",
+             f"{MRC}:SuperReconciliationOutput.reconciliation_cost", f"{MRC}:SuperReconciliationOutput.labeling_cost",
+             f"{MRC}:SuperReconciliationOutput.cost",
+             f"{SUB}:subseq_segment_dist", f"{SUB}:mask_from_subseq", f"{SUB}:subseq_complete",
+             f"{TR}:LowestCommonAncestor.is_ancestor_of", f"{TR}:LowestCommonAncestor.is_strict_ancestor_of",
+             f"{TR}:LowestCommonAncestor.is_comparable", f"{TR}:LowestCommonAncestor.distance"],
+    level="proof",
+    technique="contract-based deductive verification: evaluator methods proved from the real AST against the event-model spec (tree vocabulary), callee contracts from C17/C18",
+    not_decided=["the command-line tool prints this value (process level, C12 territory)",
+                 "sum over the pre-order enumeration = sum over internal nodes (enumeration covers each node once: assumed ete3 traverse contract)"],
 ))
